@@ -1,5 +1,6 @@
 import GoSQLXModel.Proofs.PrintRoundTrip
 import GoSQLXModel.Gen.PrintPrec
+import GoSQLXModel.Proofs.NameQuote
 /-!
 # C06 — Serialising a tree and re-parsing gives the same tree; formatting is stable
 
@@ -21,6 +22,14 @@ grammar.
 * `print_stable`: the tree read back is written as the same text (formatting formatted output changes nothing).
 Obligation on the regenerated precedence table of the serialiser (`sqlOperatorPrecedence`): every operator spelling has
 the strength of its class (`gen_prec_table`), which is what connects spellings to `Op.prec`.
+
+Names: `Model/NameQuote.lean` — `safeIdentifier` (bare when every character is a letter, digit, `_`, `*`, `.`; otherwise
+between double quotes, double quotes doubled) on ASCII names, compared with `Identifier.SQL` by the driver op `qname`.
+* `quoted_name_is_read_back`: whatever the ASCII name (no line feed), its quoted form is read by the tokenizer model as
+  ONE double-quoted token whose value is the name — doubled quotes, blanks, dots, operators, comment openers inside it
+  included; `unsafe_name_is_written_so_that_it_reads_back`: so whenever `safeIdentifier` decides to quote, the name survives;
+* the recorded finding in the model: a dot inside or a digit first counts as safe and the name is written bare
+  (`name_with_dot_is_written_bare`, `name_with_digit_first_is_written_bare`).
 
 **Partial**: CASE, CAST, sub-queries, clauses, statements, the formatting options and the three other serialisers
 (Format, formatter, CLI) are decided by the round-trip oracle on generated statements and the corpora.
@@ -47,6 +56,28 @@ theorem second_writing_is_the_first (g : G) : printG (kwNorm g) = printG g := pr
 
 /-- the serialiser's text is the minimally parenthesised rendering -/
 theorem serialiser_writes_reference_rendering (g : G) : printG g = render 1 (kwNorm g) := print_eq_render g
+
+/-- a quoted name is read back as one token holding the name, for every ASCII name without a line feed -/
+theorem quoted_name_is_read_back (cls : CharClass) (tb : Lex.Tables) (inp s R : Lex.Bytes)
+    (h34 : Lex.isIdentStart cls 34 = false) (hs : s.all Lex.nameByte = true) (hR : Lex.followQuote 34 R = true) :
+    Lex.nextToken cls tb inp (Lex.quoteName s ++ R) = .ok ({ ty := tb.ttDouble, value := s, quote := 34 }, R) :=
+  Lex.quoted_name_reads_back cls tb inp s R h34 hs hR
+
+/-- whenever the serialiser's rule quotes a name, what it writes is read back as that name -/
+theorem unsafe_name_is_written_so_that_it_reads_back (cls : CharClass) (tb : Lex.Tables) (inp s R : Lex.Bytes)
+    (h34 : Lex.isIdentStart cls 34 = false) (hs : s.all Lex.nameByte = true) (hR : Lex.followQuote 34 R = true)
+    (hne : s.isEmpty = false) (hunsafe : s.all Lex.safeByte = false) :
+    Lex.nextToken cls tb inp (Lex.safeIdentifier s ++ R) = .ok ({ ty := tb.ttDouble, value := s, quote := 34 }, R) :=
+  Lex.safeIdentifier_quoted_reads_back cls tb inp s R h34 hs hR hne hunsafe
+
+/-- the recorded finding (`name-written-bare:…:dot`, `…:digit-first`), in the model -/
+theorem name_with_dot_is_written_bare : Lex.safeIdentifier [97, 46, 98] = [97, 46, 98] := by decide
+theorem name_with_digit_first_is_written_bare : Lex.safeIdentifier [49, 115, 116] = [49, 115, 116] := by decide
+
+/-- non-vacuity: `first name` (102 105 114 115 116 32 110 97 109 101) and `x"y` meet the hypotheses and are quoted -/
+example : (([102, 105, 114, 115, 116, 32, 110, 97, 109, 101] : Lex.Bytes).all Lex.nameByte = true ∧
+    ([102, 105, 114, 115, 116, 32, 110, 97, 109, 101] : Lex.Bytes).all Lex.safeByte = false) ∧
+    Lex.safeIdentifier [120, 34, 121] = [34, 120, 34, 34, 121, 34] := by decide
 
 /-! non-vacuity: `a - (b - c)` keeps its parentheses, `(a - b) - c` and `(a * b) + c` lose theirs, `NOT (a AND b)` keeps them -/
 def ia : G := .atom (.ident "a")
